@@ -95,10 +95,11 @@ def copy_env(func_node, graph=None):
                             banned.add(leaf.id)
                             hard_banned.add(leaf.id)
         elif isinstance(node, (ast.AugAssign, ast.AnnAssign)):
-            for leaf in ast.walk(node.target):
-                if isinstance(leaf, ast.Name):
-                    banned.add(leaf.id)
-                    hard_banned.add(leaf.id)
+            # x += 1 re-binds x; x[k] += 1 / x.f += 1 change the object x
+            # names (handled below like any store through x)
+            if isinstance(node.target, ast.Name):
+                banned.add(node.target.id)
+                hard_banned.add(node.target.id)
         elif isinstance(node, (ast.For, ast.AsyncFor)):
             for leaf in ast.walk(node.target):
                 if isinstance(leaf, ast.Name):
